@@ -27,6 +27,45 @@ from .. import core, dialogue, observe, probe, spaces, sweep
 from ..engine import config, opseq, sched
 from ..ref import tables as T
 
+# The parent process of a run never executes library code itself (only imports it): everything that
+# needs a pristine process - the baseline probe, point counts, cold schedules - runs in a fork.
+
+def in_fork(fn):
+    """Run fn() in a fresh fork of this process; returns its JSON-serialisable result."""
+    r, w = os.pipe()
+    pid = os.fork()
+    if pid == 0:
+        code = 0
+        try:
+            os.close(r)
+            try:
+                data = json.dumps(["ok", fn()])
+            except BaseException as e:  # noqa
+                data = json.dumps(["err", "%s: %s" % (type(e).__name__, e)])
+            data = data.encode("utf-8")
+            while data:
+                n = os.write(w, data)
+                data = data[n:]
+        except BaseException:  # noqa
+            code = 1
+        finally:
+            os._exit(code)
+    os.close(w)
+    chunks = []
+    while True:
+        b = os.read(r, 65536)
+        if not b:
+            break
+        chunks.append(b)
+    os.close(r)
+    os.waitpid(pid, 0)
+    kind, val = json.loads(b"".join(chunks).decode("utf-8"))
+    if kind != "ok":
+        raise core.HarnessError("forked schedule execution failed: %s" % val)
+    return val
+
+
+
 # =============================================================================== (1) histories
 
 V2A = "AV:N/AC:L/Au:N/C:P/I:P/A:P"
@@ -215,7 +254,9 @@ def fresh_pool_map(func, items, nproc=None):
 
 def explore_histories(ctx, res, depth):
     global _BASE
-    _BASE = pristine()
+    _BASE = in_fork(pristine)          # computed in a fresh fork: the parent stays cold
+    if in_fork(pristine) != _BASE:
+        raise core.HarnessError("the probe is not deterministic across fresh processes")
     names = [n for n, _, _ in OPS]
     hs = []
     for k in range(1, depth + 1):
@@ -255,7 +296,7 @@ def explore_histories(ctx, res, depth):
                 res.add_violation({"what": "after the history %s: %s" % (h, why), "kind": "history",
                                    "input": h, "signature": {"kind": "history"}})
     return {"histories": len(hs), "histories_run": nrun, "ops": len(names), "depth": depth,
-            "probe_cases": run_probe()[1], "failing_batches": len(bad)}
+            "probe_cases": in_fork(lambda: run_probe()[1]), "failing_batches": len(bad)}
 
 
 # =============================================================================== (2) schedules
@@ -329,7 +370,7 @@ def _plan_list(gi, size, bound, gran, stride):
     if key not in _PLANS:
         bodies = make_bodies(GROUPS[gi][2], size)
         prefix = os.path.join(core.REPO, "cvss") + os.sep
-        npts = sched.count_points(bodies, gran, prefix)
+        npts = in_fork(lambda: sched.count_points(bodies, gran, prefix))
         _PLANS[key] = (list(sched.plans(npts, bound, stride)), npts)
     return _PLANS[key]
 
@@ -461,41 +502,6 @@ def cold_bodies(gi):
     # threads 0 and 1, the scheduler appends it as a run-to-completion segment): the object must
     # still behave like a fresh one
     return [lambda: f(o), lambda: f(o), lambda: _acc_medium(o) + "|" + json.dumps(hash(o) == hash(_cls(cls)(vec)))]
-
-
-def in_fork(fn):
-    """Run fn() in a fresh fork of this process; returns its JSON-serialisable result."""
-    r, w = os.pipe()
-    pid = os.fork()
-    if pid == 0:
-        code = 0
-        try:
-            os.close(r)
-            try:
-                data = json.dumps(["ok", fn()])
-            except BaseException as e:  # noqa
-                data = json.dumps(["err", "%s: %s" % (type(e).__name__, e)])
-            data = data.encode("utf-8")
-            while data:
-                n = os.write(w, data)
-                data = data[n:]
-        except BaseException:  # noqa
-            code = 1
-        finally:
-            os._exit(code)
-    os.close(w)
-    chunks = []
-    while True:
-        b = os.read(r, 65536)
-        if not b:
-            break
-        chunks.append(b)
-    os.close(r)
-    os.waitpid(pid, 0)
-    kind, val = json.loads(b"".join(chunks).decode("utf-8"))
-    if kind != "ok":
-        raise core.HarnessError("forked schedule execution failed: %s" % val)
-    return val
 
 
 def cold_alone(gi):
@@ -708,25 +714,92 @@ def explore_decimal(ctx, res):
             "contexts_set_before_import": len(sub), "cases_before_import": stats["cases"]}
 
 
+# =============================================================================== (5) silence
+
+def _silence_task(chunk):
+    """Every library entry point that is not the CLI / interactive builder, over valid inputs and
+    every error path of the C04 edit neighbourhood, with stdout/stderr captured."""
+    import cvss
+    from cvss.parser import parse_cvss_from_text
+    out, err = io.StringIO(), io.StringIO()
+    old = sys.stdout, sys.stderr
+    sys.stdout, sys.stderr = out, err
+    n = 0
+    first = None
+    try:
+        for s in chunk:
+            before = out.tell() + err.tell()
+            for cls in (cvss.CVSS2, cvss.CVSS3, cvss.CVSS4):
+                n += 1
+                try:
+                    o = cls(s)
+                except Exception:  # noqa
+                    o = None
+                if o is not None:
+                    _use(o)
+                try:
+                    cls.from_rh_vector("5.0/" + s)
+                except Exception:  # noqa
+                    pass
+                try:
+                    cls.from_rh_vector(s)
+                except Exception:  # noqa
+                    pass
+            try:
+                parse_cvss_from_text(s + " " + s)
+            except Exception:  # noqa
+                pass
+            if first is None and out.tell() + err.tell() != before:
+                first = s
+    finally:
+        sys.stdout, sys.stderr = old
+    return n, first, (out.getvalue() + err.getvalue())[:200]
+
+
+def explore_silence(ctx, res):
+    from . import c04
+    strings = set()
+    for s in c04.seeds(6):
+        strings.add(s)
+        for t in c04.field_edits(s, small=True):
+            strings.add(t)
+    for s in c04.seeds(2):
+        for t in c04.char_edits(s):
+            if len(strings) < (400000 if ctx.thorough else 120000):
+                strings.add(t)
+    strings = sorted(strings)
+    outs = core.pool_map(_silence_task, [strings[i::64] for i in range(64)])
+    n = sum(o[0] for o in outs)
+    for cnt, first, text in outs:
+        if first is not None:
+            res.add_violation({"what": "a library call on %r writes to stdout/stderr: %r" % (first, text),
+                               "kind": "silence", "input": first, "signature": {"kind": "silence"}})
+            break
+    return {"strings": len(strings), "constructor_calls_with_captured_output": n}
+
+
 # =============================================================================== driver
 
 def run(ctx, res):
     cov = res.coverage
+    cs, ctot = explore_cold_schedules(ctx, res)
+    ctx.log("cold/shared schedules: %d, %d points" % (cs["schedules"], cs["scheduling_points_executed"]))
     h = explore_histories(ctx, res, 3 if ctx.thorough else 2)
     ctx.log("histories: %r" % (h,))
     s, tot = explore_schedules(ctx, res)
     ctx.log("schedules: %d, %d points" % (s["schedules"], s["scheduling_points_executed"]))
-    cs, ctot = explore_cold_schedules(ctx, res)
-    ctx.log("cold/shared schedules: %d, %d points" % (cs["schedules"], cs["scheduling_points_executed"]))
     hs = explore_hashseeds(ctx, res)
     ctx.log("hash seeds done")
     d = explore_decimal(ctx, res)
     ctx.log("decimal contexts done")
+    sl = explore_silence(ctx, res)
+    ctx.log("silence done: %r" % (sl,))
     cov["histories"] = h
     cov["schedules"] = s
     cov["cold_and_shared_object_schedules"] = cs
     cov["hash_seeds"] = hs
     cov["decimal_contexts"] = d
+    cov["silence"] = sl
     cov["states"] = h["histories_run"] + s["schedules"] + cs["schedules"] + len(hs["seeds"]) + d["contexts"]
     cov["transitions"] = h["histories_run"] * (h["depth"] + 1) + s["scheduling_points_executed"] + \
         cs["scheduling_points_executed"] + \
@@ -764,6 +837,9 @@ def replay(case):
         if (a is None) != (b is None):
             raise core.HarnessError("schedule replay is not deterministic")
         return bool(a), a or "as sequential"
+    if k == "silence":
+        n, first, text = _silence_task([case["input"]])
+        return first is not None, "wrote %r" % text
     if k == "cold_schedule":
         i = case["input"]
         plan = [tuple(p) for p in i["plan"]]
